@@ -53,6 +53,39 @@ def check(c):
         for pre in ('itask.state.set_all_task_prerequisites_satisfied()',
                     'schd.pool.merge_flows(itask, flow_nums)'):
             c.pre('C28.start-tasks', ft, n, c.matches(pre), pre.split('(')[0])
+    # every active member is struck off the "inactive" set, whatever happens
+    # to it afterwards (otherwise the re-creation loop builds and triggers a
+    # second proxy for a task that is still active): the removal comes before
+    # every `continue` of the loop over the active members and before the
+    # end of its body
+    rem = [n for n in c.calls(ft, 'remove') if norm(n.func.value) == 'inactive'
+           ] + [n for n in c.calls(ft, 'discard')
+                if norm(n.func.value) == 'inactive']
+    c.floor('C28.active-not-recreated', 'inactive.remove(<active member>)',
+            len(rem), 1)
+    cfgt = c.cfg(ft)
+    for n in rem:
+        st = c.idx.stmt_of(n)
+        loop = st
+        while loop is not None and not isinstance(loop, ast.For):
+            loop = c.idx.parent.get(id(loop))
+        ok = isinstance(loop, ast.For) and norm(loop.iter) == 'active' and \
+            norm(n.args[0]) in (f'{norm(loop.target)}.tokens.task',)
+        c.ob('C28.active-not-recreated', c.key(n, ft) + ' in the loop over '
+             'the active members, for that member', ok, c.where(n, ft), '')
+        if not isinstance(loop, ast.For):
+            continue
+        exits = [x for x in ast.walk(loop) if isinstance(x, ast.Continue)
+                 and c.idx.stmt_of(x) is not st] + [loop.body[-1]]
+        for x in exits:
+            if x is st:
+                continue
+            okx = cfgt.dominated_by(x, lambda s, st=st: s is st)
+            c.ob('C28.active-not-recreated', c.key(x, ft)[:120] +
+                 ' after the member is struck off', okx, c.where(x, ft),
+                 '' if okx else 'an iteration can end without removing the '
+                 'active member from `inactive`: it is re-created and '
+                 'triggered although it is still active')
     mfl = [n for n in c.find(ft, 'schd.pool.merge_flows(itask, flow_nums)')
            if c.holds(n, StatusCovers('preparing', 'submitted', 'running'))]
     c.floor('C28.live-jobs', 'live start tasks only merge flows', len(mfl), 1)
@@ -197,4 +230,16 @@ VARIANTS = [
                 # manually triggered tasks to run now.''',
      '''            if self.pool.tasks_to_trigger_now and not self.is_paused:
                 # manually triggered tasks to run now.''', 'C28.consume'),
+    ('strike-off-after-continue', 'cylc/flow/commands.py',
+     '''        inactive.remove(itask.tokens.task)
+
+        if not any(''', '''        if not any(''',
+     'C28.active-not-recreated'),
+    ('strike-off-only-started', 'cylc/flow/commands.py',
+     '''        inactive.remove(itask.tokens.task)
+
+        if not any(''', '''        if itask.state(*TASK_STATUSES_ACTIVE):
+            inactive.remove(itask.tokens.task)
+
+        if not any(''', 'C28.active-not-recreated'),
 ]
